@@ -50,13 +50,17 @@ structure Policy where
   dPacket : Bool            -- the target may answer
   timer : State → Nat → Bool
   stopCall : State → Bool
+  packFails : Bool := false  -- every PackInPlace of the uplink fails (oversize for the client MTU, unresolvable target)
 
 def idleEstablished (e : Entry) : Bool := e.ipc == .dRead && e.upc == .recv && e.q == 0
 
 /-- events of the policy enabled in (s, used arrivals) with the successor's `extra` -/
 def succs (cfg : Cfg) (p : Policy) (s : State) (used : Nat) : List (State × Nat) :=
   let evs : List (Ev × Nat) :=
-    (internalEvs s).map (fun e => (e, used)) ++
+    ((internalEvs s).filter (fun e => match e with
+        | .uStep i => !(p.packFails && (s.ent i).upc == .send)
+        | _ => true)).map (fun e => (e, used)) ++
+    (if p.packFails then (List.range s.n).map (fun i => (Ev.uFail i, used)) else []) ++
     (if used < p.arrivals then [(.arrive 0, used + 1)] else []) ++
     (List.range s.n).flatMap (fun i =>
       [(Ev.init i (p.initOk (s.ent i).ipc), used)] ++
@@ -66,7 +70,10 @@ def succs (cfg : Cfg) (p : Policy) (s : State) (used : Nat) : List (State × Nat
   evs.filterMap (fun (e, u) => (step cfg s e).map (fun s' => (s', u)))
 
 def internalEnabled (cfg : Cfg) (p : Policy) (s : State) : Bool :=
-  (internalEvs s).any (fun e => (step cfg s e).isSome) ||
+  (internalEvs s).any (fun e => (match e with
+      | .uStep i => !(p.packFails && (s.ent i).upc == .send)
+      | _ => true) && (step cfg s e).isSome) ||
+  (p.packFails && (List.range s.n).any (fun i => (step cfg s (.uFail i)).isSome)) ||
   (List.range s.n).any (fun i => (step cfg s (.init i (p.initOk (s.ent i).ipc))).isSome)
 
 partial def bfs (cfg : Cfg) (p : Policy) (work : List (State × Nat)) (seen : Std.HashSet (List Nat)) (acc : List (State × Nat)) :
@@ -124,10 +131,12 @@ def explore (cfg : Cfg) (scenario : String) : String :=
     let (a1, b1, c1) := classify cfg (mk .getClient) (run (mk .getClient) [(State.init, 0)])
     let (a2, b2, c2) := classify cfg (mk .newSession) (run (mk .newSession) [(State.init, 0)])
     out (a1 ++ a2) (b1 ++ b2) (c1 ++ c2) ""
-  | "evict" =>
+  | "evict" | "evict-unpackable" =>
     -- phase 1: one datagram, the session gets established and idle; then the NAT timer fires; internal moves only
+    -- (evict-unpackable: the only datagram of the first session cannot be packed by the uplink)
     let p1 : Policy := { arrivals := 1, initOk := allOk, heldAt := none, dPacket := false,
-                         timer := fun s i => idleEstablished (s.ent i) && s.rpc == .read, stopCall := fun _ => false }
+                         timer := fun s i => idleEstablished (s.ent i) && s.rpc == .read, stopCall := fun _ => false,
+                         packFails := scenario == "evict-unpackable" }
     let s1 := run p1 [(State.init, 0)]
     let term1 := s1.filter (fun (s, u) => u == 1 && (succs cfg p1 s u).isEmpty)
     let evicted := term1.all (fun (s, _) => s.n == 1 && (s.ent 0).finished && (s.table 0).isNone)
